@@ -77,6 +77,16 @@ func (st *VFSState) Unsynced() []string {
 	return out
 }
 
+// SyncedLen returns the durable and the page-cache length of a file.
+func (st *VFSState) SyncedLen(name string) (synced, length int) {
+	st.mu.Lock()
+	defer st.mu.Unlock()
+	if v, ok := st.Files[name]; ok {
+		return v.Synced, len(v.Data)
+	}
+	return 0, 0
+}
+
 // Crash applies a power-loss: for every file with un-synced data, cut(name,
 // synced, len) chooses how many bytes survive (synced <= n <= len).
 func (st *VFSState) Crash(cut func(name string, synced, length int) int) {
